@@ -11,6 +11,7 @@ import (
 	"runtime/debug"
 	"runtime/pprof"
 	"sort"
+	"strconv"
 	"strings"
 	"time"
 
@@ -25,6 +26,10 @@ func main() {
 	// the loaded program (types + SSA of the stdlib closure) is a large, long-lived heap:
 	// collect less often
 	debug.SetGCPercent(800)
+	if v, err := strconv.Atoi(os.Getenv("SYMGO_REFRESH_DEFS")); err == nil && v > 0 {
+		defsRefreshLimit = v // testing aid: force solver restarts
+	}
+	debug.SetMemoryLimit(5 << 30) // soft: the collector works harder instead of letting a worker grow past this
 	if len(os.Args) < 2 {
 		fmt.Fprintln(os.Stderr, "usage: symgo run|check|selfcheck ...")
 		os.Exit(2)
@@ -490,7 +495,7 @@ func (s *session) run(o runOpts) int {
 	if os.Getenv("SYMGO_STATS") != "" {
 		fmt.Fprintf(os.Stderr, "solver values %d calls %.2fs; send time %.2fs read time %.2fs bytes %d; merges %d aborts %d; absDecided %d decisions %d steps %d\n", solver.ValuesCalls, solver.ValuesTime.Seconds(), solver.SendTime.Seconds(), solver.ReadTime.Seconds(), solver.SendBytes, it.Merges, it.MergeAborts, ex.AbsDecided, ex.Decisions, ex.StepsTotal)
 	}
-	fmt.Fprintf(os.Stderr, "%s %s: %s paths=%d asserts=%d/%d queries=%d solver=%.2fs wall=%.2fs viol=%d\n", *harness, *params, res.Status, res.Paths, res.AssertsHeld, res.Asserts, solver.Queries, solver.Time.Seconds(), res.WallS, len(res.Violations))
+	fmt.Fprintf(os.Stderr, "%s %s: %s paths=%d asserts=%d/%d queries=%d solver=%.2fs wall=%.2fs viol=%d restarts=%d\n", *harness, *params, res.Status, res.Paths, res.AssertsHeld, res.Asserts, solver.Queries, solver.Time.Seconds(), res.WallS, len(res.Violations), solver.Restarts)
 	for _, m := range res.Inconclusive {
 		fmt.Fprintln(os.Stderr, "  inconclusive:", m)
 	}
